@@ -464,3 +464,97 @@ def decode_fixed_string(capacity, buffer):
     if len(data) < capacity:
         raise DataError("truncated string data")
     return data[:n].decode("iso-8859-1")
+
+
+# ---------------------------------------------------------------------------------------------- STRINGI
+#   USINT count, then per string: 3 ASCII characters of language, 1 byte type code of the string's type,
+#   UINT character set, the string in that type (CIP Vol 1 C-5.2.5)
+STRINGI_KINDS = {0xD0: "STRING", 0xD5: "STRING2", 0xD9: "STRINGN", 0xDA: "SHORT_STRING"}
+STRINGI_CODES = {"STRING": 0xD0, "STRING2": 0xD5, "STRINGN": 0xD9, "SHORT_STRING": 0xDA}
+
+
+def encode_stringi(entries):
+    """entries: sequence of (text, kind, language, character set)"""
+    if len(entries) > 255:
+        raise DataError("too many strings")
+    out = bytes([len(entries)])
+    for entry in entries:
+        text, kind, lang, char_set = entry
+        if not isinstance(lang, str) or len(lang) != 3:
+            raise DataError("language code is three characters")
+        try:
+            code = lang.encode("ascii")
+        except UnicodeEncodeError:
+            raise DataError("language code is ASCII")
+        if kind == "STRINGN":
+            body = encode_stringn(text, 1)
+        else:
+            body = encode_string(kind, text)
+        out = out + code + bytes([STRINGI_CODES[kind]]) + encode_int("UINT", char_set) + body
+    return out
+
+
+def decode_stringi(buffer):
+    if not isinstance(buffer, (bytes, BytesIO)):
+        raise DataError("not a buffer")
+    stream = stream_of(buffer)
+    count = read_exact(stream, 1)[0]        # BufferEmptyError when nothing is left where the value starts
+    strings, langs, char_sets = [], [], []
+    for _ in range(count):
+        lang = stream.read(3)
+        if len(lang) < 3:
+            raise DataError("truncated language code")
+        code = stream.read(1)
+        if len(code) < 1 or code[0] not in STRINGI_KINDS:
+            raise DataError("unknown string type")
+        cs = stream.read(2)
+        if len(cs) < 2:
+            raise DataError("truncated character set")
+        kind = STRINGI_KINDS[code[0]]
+        try:
+            text = decode_stringn(stream) if kind == "STRINGN" else decode_string(kind, stream)
+        except BufferEmptyError:
+            raise DataError("truncated string")
+        langs.append(lang.decode("iso-8859-1"))
+        char_sets.append(from_le(cs, 2))
+        strings.append(text)
+    return strings, langs, char_sets
+
+
+# ---------------------------------------------------------------------------------------------- PCCC (SLC / PLC-5) strings
+#   A-file element: one 16-bit word holding two characters, the first in the HIGH byte (so swapped in the byte stream).
+#   ST-file element: 42 words = LEN (0..82), then 82 characters word-swapped, NUL padded  (1747-RM001 / DF1 manual).
+def swap_words(data):
+    return bytes([data[i + 1 - 2 * (i % 2)] for i in range(len(data))])
+
+
+def encode_pccc_ascii(value):
+    if not isinstance(value, str) or len(value) < 2:
+        raise DataError("two characters")
+    data = text_bytes(value[:2], 1)
+    return bytes([data[1], data[0]])
+
+
+def decode_pccc_ascii(buffer):
+    if not isinstance(buffer, (bytes, BytesIO)):
+        raise DataError("not a buffer")
+    data = read_exact(stream_of(buffer), 2)
+    return bytes([data[1], data[0]]).decode("iso-8859-1")
+
+
+def encode_pccc_string(value):
+    if not isinstance(value, str) or len(value) > 82:
+        raise DataError("at most 82 characters")
+    data = text_bytes(value, 1)
+    return le_uint(len(value), 2) + swap_words(data + bytes(82 - len(data)))
+
+
+def decode_pccc_string(buffer):
+    if not isinstance(buffer, (bytes, BytesIO)):
+        raise DataError("not a buffer")
+    stream = stream_of(buffer)
+    n = from_le(read_exact(stream, 2), 2)
+    data = stream.read(82)
+    if len(data) < 82 or n > 82:
+        raise DataError("malformed string element")
+    return swap_words(data)[:n].decode("iso-8859-1")
